@@ -44,7 +44,7 @@ func retryRules(c *Ctx) {
 	if !q.ok() {
 		return
 	}
-	ls := closuresOf(q.fn, func(f *ssa.Function) bool { return true })
+	ls := closuresOf(q.fn, func(f *ssa.Function) bool { return an.ClosureRole(f) == "ret" })
 	if len(ls) != 1 {
 		q.undecided("PATH", "retry loop", "expected one closure returned by ExponentialRetry")
 		return
@@ -310,10 +310,10 @@ func init() {
 		},
 		Floors: []Floor{
 			floorRule("RNG", "RNG", 3),
-			floorKey("retry loop paths", 5, "PATH/ExponentialRetry$1/"),
+			floorKey("retry loop paths", 5, "PATH/ExponentialRetry$ret1/"),
 			floorKey("unwrap", 1, "/unpackFatalError/"),
 			floorKey("isFatalError", 1, "/isFatalError/"),
-			floorKey("waitDuration", 2, "/init$1/"),
+			floorKey("waitDuration", 2, "/init$waitDuration1/"),
 		},
 	})
 }
